@@ -68,6 +68,37 @@ def finite(ty):
     return False
 
 
+def strip_ref(ty):
+    ty = ty.strip()
+    if ty.startswith('&mut '):
+        ty = ty[5:]
+    if ty.startswith('&'):
+        ty = ty[1:]
+    return re.sub(r"^'\w+ ", '', ty).strip()
+
+
+def budgeted(ty, budget_ty):
+    """is every way of producing an item from this iterator type paired with one permit of the search budget?
+    structural: Zip with the budget; every arm of an Either; through element-wise wrappers"""
+    ty = strip_ref(ty)
+    if ty == budget_ty:
+        return True
+    head, args = split_generic(ty)
+    if head == 'std::iter::Zip' and len(args) == 2:
+        return budgeted(args[0], budget_ty) or budgeted(args[1], budget_ty)
+    if head == 'itertools::Either' and args:
+        return all(budgeted(a, budget_ty) for a in args)
+    if head in WRAP and args:
+        return budgeted(args[0], budget_ty)
+    if head == 'std::iter::Chain' and len(args) == 2:
+        return budgeted(args[0], budget_ty) and budgeted(args[1], budget_ty)
+    return False
+
+
+def mentions(ty, parts):
+    return any(p and p in ty for p in parts)
+
+
 def run(ctx):
     mir = ctx.mir
     ctx.explanation = ('Inventory of all natural loops of the builtin/utility bodies, each classified as budgeted by the search limit, finite over an '
@@ -77,6 +108,21 @@ def run(ctx):
                        'loops over sequences of finite but astronomically large logical length (range(2**62)) are bounded by the size limit only']
     r1 = ctx.rule('R10.1', 'every native loop is budgeted, finite-structural, or listed with a termination reason')
     nB = nF = nL = 0
+    # the types involved are read from the code: what search_iter returns, and what the element iterators of sequences and
+    # generators are (their closures' types make them recognisable inside any composed iterator type)
+    def ret_ty(nid):
+        bs = mir.find(nid)
+        return strip_ref(bs[0].locals[0]['ty']) if len(bs) == 1 else None
+    budget_ty = ret_ty('runtime::RuntimeLimits::search_iter')
+    seq_iter = ret_ty('builtin::sequence::XSequence::iter')
+    seq_diter = ret_ty('builtin::sequence::XSequence::diter')
+    if seq_diter and seq_diter.startswith('std::option::Option<'):
+        seq_diter = seq_diter[len('std::option::Option<'):-1]
+    gen_iter = ret_ty('builtin::generators::XGenerator::_iter')
+    lazy_tys = [seq_iter, seq_diter, gen_iter, 'dyn std::iter::Iterator<Item = std::result::Result<std::result::Result<std::rc::Rc<xvalue::ManagedXValue', 'dyn std::iter::DoubleEndedIterator<Item = std::result::Result<std::result::Result<std::rc::Rc<xvalue::ManagedXValue']
+    if not budget_ty or BUDGET not in budget_ty or not seq_iter or not seq_diter or not gen_iter:
+        r1.fail('anchor/iterator-types', '-', 'return types of search_iter / XSequence::iter / diter / XGenerator::_iter not found in the MIR')
+        return
     for b in mir.bodies:
         if not (b.file.startswith('src/builtin/') or b.file.startswith('src/util/')):
             continue
@@ -94,9 +140,13 @@ def run(ctx):
             cls = None
             if t['k'] == 'call' and strip_generics(t.get('decl') or '') == 'std::iter::Iterator::next':
                 ty = (t.get('argtys') or [''])[0]
-                if BUDGET in ty:
+                if budgeted(ty, budget_ty):
                     cls = 'B'
                     nB += 1
+                elif mentions(ty, lazy_tys):
+                    # an iterator over the *logical* elements of a sequence / generator (possibly astronomically many, or
+                    # infinitely many) that is not paired with the budget on every arm: needs a listed reason
+                    cls = None
                 elif finite(ty):
                     cls = 'F'
                     nF += 1
